@@ -139,6 +139,13 @@ fn knobs(run: &mut Run, seed: u64) {
     // (a') a slot of the leaf becomes redundant at some point of the history (k <= 4): the
     // permuted copies are then compared with M_cc ("restricted to non-redundant slots")
     run.set("redundant_at", if f.chance(1, 3) { 1 + f.below(4) as i64 } else { 0 });
+    // (a'') (own stream) two classes with their own symmetries, merged afterwards
+    let mut mr = Rng::stream(seed, "merge-two");
+    if mr.chance(1, 2) {
+        run.set("merge_two", 1);
+        run.set("merge_mask", mr.below(16) as i64);
+        run.set("merge_flip", mr.below(2) as i64);
+    }
 }
 
 fn enum_sizes(tier: Tier) -> Vec<(usize, usize)> {
@@ -185,13 +192,37 @@ impl Check for GroupCheck {
     fn gen(&self, seed: u64, _tier: Tier) -> Run {
         let mut run = Run::new("C10", seed);
         let mut w = Rng::stream(seed, "workload");
-        let k = *w.pick(&[4, 5, 5, 6, 6]);
+        let mut k = *w.pick(&[4, 5, 5, 6, 6]);
+        {
+            // (own stream) seven or eight points, direct path only: groups with thousands of elements
+            let mut br = Rng::stream(seed, "big-k");
+            if br.chance(1, 10) {
+                k = if br.chance(1, 5) { 8 } else { 7 };
+            }
+        }
         run.set("k", k as i64);
         let g = w.range(1, 3);
         for _ in 0..g {
             run.ops.push(perm_op(&random_perm(&mut w, k)));
         }
         knobs(&mut run, seed);
+        if run.get("merge_two") != 0 {
+            // (own stream) up to two further generators, biased towards transpositions and 3-cycles
+            let mut mr = Rng::stream(seed, "merge-two-gens");
+            for _ in 0..mr.below(3) {
+                let mut p: P = (0..k as u8).collect();
+                let a = mr.below(k);
+                let b = (a + 1 + mr.below(k - 1)) % k;
+                p.swap(a, b);
+                if mr.chance(1, 2) {
+                    let c = mr.below(k);
+                    if c != a && c != b {
+                        p.swap(b, c);
+                    }
+                }
+                run.ops.push(perm_op(&p));
+            }
+        }
         run
     }
 
@@ -213,7 +244,9 @@ impl Check for GroupCheck {
     fn exec(&self, run: &Run) -> Outcome {
         let mut out = Outcome::default();
         seam::apply(&run.knobs());
-        let k = run.get("k").clamp(1, 6) as usize;
+        let k = run.get("k").clamp(1, 8) as usize;
+        // seven and eight points exist on the direct path only (the leaves of LS end at six slots)
+        let big_k = k > 6;
         let gens: Vec<P> = run
             .ops
             .iter()
@@ -230,8 +263,13 @@ impl Check for GroupCheck {
             .collect();
         let mut orng = Rng::stream(run.get("hash_seed") as u64 ^ 0x5151, "oracle-sampling");
         let mut queries: Vec<P> = if k <= 5 { all_perms(k) } else { (0..150).map(|_| random_perm(&mut orng, k)).collect() };
-        if k == 6 {
-            queries.push((0..6).collect());
+        if k >= 6 {
+            queries.push((0..k as u8).collect());
+            // members of the generated group (random permutations of six and more points rarely are)
+            let members: Vec<P> = closure(k, &gens).into_iter().collect();
+            for _ in 0..60 {
+                queries.push(orng.pick(&members).clone());
+            }
         }
         let viol = |clause: &str, detail: String, at: usize| Violation {
             property: "C10".into(),
@@ -244,7 +282,7 @@ impl Check for GroupCheck {
         };
 
         // (a) e-graph path
-        let leaf = Tm::leaf(&format!("p{k}"), (0..k as S).collect());
+        let leaf = Tm::leaf(&format!("p{}", k.min(6)), (0..k.min(6) as S).collect());
         let mut s: Sess<LS, ()> = Sess::new(EGraph::new(()), run.get("naming") as u32);
         let r = catch_op(|| s.add_term(&leaf, false));
         let h = match r {
@@ -255,6 +293,9 @@ impl Check for GroupCheck {
             }
         };
         for (gi, g) in gens.iter().enumerate() {
+            if big_k {
+                break;
+            }
             let permuted = Tm::leaf(&format!("p{k}"), g.iter().map(|x| *x as S).collect());
             let old = gi % 2 == 0;
             let r = catch_op(|| s.union_terms(&leaf, &permuted, old, false));
@@ -290,6 +331,60 @@ impl Check for GroupCheck {
             }
             let p = s.eg.progress();
             out.states.push(crate::rng::mix(m.len() as u64 ^ (p.sum_of_symmetries as u64) << 16));
+        }
+
+        // (a'') two classes over the same k slots, each with its own asserted symmetries, merged afterwards:
+        // the leaf p_k(0..k) and the term (g $0 (p_{k-1} $1 ..)). Generator i is asserted on the second
+        // class if bit i of merge_mask is set. After union(leaf, g-term) (either orientation) both terms
+        // must have exactly the symmetries generated by all the asserted ones.
+        if run.get("merge_two") != 0 && k >= 2 && !big_k && !gens.is_empty() {
+            let mask = run.get("merge_mask") as usize;
+            let t2 = Tm::node("g", vec![0], vec![(vec![], Tm::leaf(&format!("p{}", k - 1), (1..k as S).collect()))]);
+            let mut s3: Sess<LS, ()> = Sess::new(EGraph::new(()), run.get("naming") as u32);
+            let r = catch_op(|| (s3.add_term(&leaf, false), s3.add_term(&t2, false)));
+            let Ok((h1, h2)) = r else {
+                out.discarded = Some("panic".into());
+                return out;
+            };
+            for (gi, g) in gens.iter().enumerate() {
+                let m: BTreeMap<S, S> = (0..k).map(|i| (i as S, g[i] as S)).collect();
+                let (a, b) = if (mask >> gi) & 1 == 1 { (t2.clone(), t2.rename_keep_binders(&m)) } else { (leaf.clone(), leaf.rename_keep_binders(&m)) };
+                if catch_op(|| s3.union_terms(&a, &b, gi % 2 == 0, false)).is_err() {
+                    out.discarded = Some("panic".into());
+                    return out;
+                }
+                out.ops_executed += 1;
+            }
+            let r = if run.get("merge_flip") != 0 { catch_op(|| s3.union_terms(&t2, &leaf, true, false)) } else { catch_op(|| s3.union_terms(&leaf, &t2, true, false)) };
+            if r.is_err() {
+                out.discarded = Some("panic".into());
+                return out;
+            }
+            let m = closure(k, &gens);
+            for q in &queries {
+                let rho: BTreeMap<S, S> = (0..k).map(|i| (i as S, q[i] as S)).collect();
+                let sm = s3.nm.slotmap(&rho);
+                let want = m.contains(q);
+                for (what, ha, hb) in [("leaf vs leaf", &h1, &h1), ("g-term vs g-term", &h2, &h2), ("leaf vs g-term", &h1, &h2)] {
+                    let hq = hb.apply_slotmap_partial(&sm);
+                    let got = match catch_op(|| s3.eg.eq(ha, &hq)) {
+                        Ok(b) => b,
+                        Err(_) => {
+                            out.discarded = Some("panic_in_query".into());
+                            return out;
+                        }
+                    };
+                    out.bump("merged_classes_queries");
+                    if got != want {
+                        out.violations.push(viol(
+                            if got { "eq_outside_group" } else { "eq_misses_group_element" },
+                            format!("p{k}(0..) and (g $0 (p{}(1..))) with generators {:?} (bit i of mask {mask} set: asserted on the g-term), then united (flip {}): eq({what} permuted by {q:?}) = {got}, brute-force group membership = {want} (|G| = {})", k - 1, gens, run.get("merge_flip"), m.len()),
+                            gens.len(),
+                        ));
+                        return out;
+                    }
+                }
+            }
         }
 
         // (a') redundancy on the leaf: old handles, every permutation, oracle M_cc
